@@ -47,7 +47,8 @@ type Step struct {
 	Retain    bool     `json:"retain,omitempty"`
 	IdleMs    int64    `json:"idle_ms,omitempty"`
 	Bytes     []byte   `json:"bytes,omitempty"`
-	PID       uint16   `json:"pid,omitempty"` // pub2hold / pub2rel: the client-chosen packet identifier
+	PID       uint16   `json:"pid,omitempty"`    // pub2hold / pub2rel: the client-chosen packet identifier
+	Victim    int      `json:"victim,omitempty"` // stallpub: the client that has stopped reading
 }
 
 type Will struct {
@@ -360,6 +361,60 @@ func (w *World) Apply(st Step) (problem string, inconclusive bool) {
 		if st.PQoS == 2 && !s.K.Has(PUBCOMP, id) {
 			return fmt.Sprintf("client %d: no PUBCOMP for %q", st.C, st.Topic), false
 		}
+	case "stallpub":
+		// client Victim stays connected but has stopped reading (its buffers are full: writes to
+		// it block); client C publishes; time passes until the victim's allowance is over. The
+		// write to the victim times out and the victim's session ends for silence — every other
+		// matching subscriber still gets the message.
+		if s == nil || !s.Alive || s.Node.Down || st.Victim < 0 || st.Victim >= len(w.S) {
+			return "", false
+		}
+		v := w.S[st.Victim]
+		if v == s || !v.Alive || v.Node.Down || v.Displaced || s.Displaced || v.Node != s.Node || w.mp(v) != w.mp(s) {
+			return "", false
+		}
+		v.K.Conn.StallWrites(true)
+		id := s.nextPID
+		s.nextPID++
+		w.touch(s)
+		w.modelPublish(w.mp(s), st.Topic, st.Payload, false, s.Node)
+		s.K.Send(EncPublish(st.Topic, []byte(st.Payload), 0, false, false, id))
+		// let the publish reach the writer: either the write to the victim blocks, or (the victim
+		// has no matching filter) everything settles by itself
+		matches := false
+		for f := range v.Subs {
+			if ref.MatchS(f, st.Topic) {
+				matches = true
+			}
+		}
+		if matches {
+			for until := time.Now().Add(5 * time.Second); time.Now().Before(until) && !v.K.Conn.WriteBlocked(); {
+				time.Sleep(100 * time.Microsecond)
+			}
+			if !v.K.Conn.WriteBlocked() {
+				v.K.Conn.StallWrites(false)
+				return "stallpub: the write to the stalled client never started", true
+			}
+		} else if !settle() {
+			return
+		}
+		d := 2*time.Duration(v.KeepAlive)*time.Second + 2*time.Second
+		w.Cl.Clock.Advance(d)
+		// what the victim was or was not sent is not judged; it is gone now
+		v.Displaced = true
+		var expired []*Sess
+		for _, x := range w.S {
+			if x.Alive && !x.Node.Down && w.Cl.Clock.Now() >= x.Deadline {
+				expired = append(expired, x)
+			}
+		}
+		for _, x := range expired {
+			w.endSession(x, "timeout")
+		}
+		if !settle() {
+			return
+		}
+		v.K.Conn.StallWrites(false)
 	case "noack":
 		if s == nil || !s.Alive || s.Node.Down {
 			return "", false
